@@ -981,6 +981,15 @@ class G:
         pre = [s for s in self.stmts(1, self.i(0, 2), Ctx(iso=True))]
         body = pre + block
         if callee_kind == "render":
+            r = self.i(0, 7)
+            if r == 0:
+                # the rendered template extends a base and the include sits in its overriding block
+                self.templates["ab"] = [T("<"), {"t": "block", "name": "k", "body": [T("dflt")]}, T(">")]
+                body = [{"t": "extends", "name": ["str", "ab"]}, {"t": "block", "name": "k", "body": body}]
+                path.append("overriding-block")
+            elif r == 1:
+                body = [{"t": "block", "name": "k", "body": body}]
+                path.append("block")
             self.templates["a"] = body
             caller = [T(S_OPEN), {"t": "render", "name": ["str", "a"], "args": []}, T(S_CLOSE)]
         else:
